@@ -135,7 +135,11 @@ class Optimizer(Identifiable, Runnable):
                 self.optimizer.zero_grad()
                 loss.backward()
 
+                retry = False
                 for p in self.parameters:
+                    # a parameter the loss does not depend on has no gradient
+                    if p.grad is None:
+                        continue
                     retry = torch.any(torch.isinf(p.grad)) or torch.any(
                         torch.isnan(p.grad)
                     )
